@@ -24,6 +24,24 @@ chk('C05', 'model_checking',
     'for the codecs. libz itself is outside.',
     'bounded symbolic execution of LLVM IR (own executor, z3) + native ASan/UBSan replay', 'DESIGN.md §3 C05')
 
+chk('C02', 'model_checking',
+    'Bounded symbolic execution: for symbolic logical values of each of the 11 blob kinds (all field values symbolic; entry counts and label lengths from a stated grid) '
+    'the real encoder output is compared byte for byte with an independent reference encoder of the documented Engine layout, and the real decoder is run on the reference '
+    'encoder\'s bytes and compared field by field (doubles by bit pattern). Encoder and decoder are never compared with each other, so drifting together is caught.',
+    'Trusted: the reference layout in harness/h_codec_v1.cpp / h_codec_v2.cpp (my reading of the documented format), clang lowering, lsx, z3. zlib framing: identity model for the codecs; '
+    'the real wrappers are checked against a contract stub of libz in the C05 check (h_zlib). libz\'s bit stream is outside.',
+    'bounded symbolic execution of LLVM IR (lsx, z3) against a reference byte layout', 'DESIGN.md §3 C02')
+chk('C03', 'model_checking',
+    'Bounded symbolic execution of real encode -> real decode for the 11 codecs: every field value symbolic (doubles by bit pattern, full-width integers, symbolic label bytes), '
+    'counts/label lengths from a stated grid that includes the rejection side (labels of 255/256/300 bytes, 9 cue slots, empty labels). Assert: encode throws, or decode returns the same value; '
+    'only the reserved -1 offsets may read back absent.',
+    'Trusted: clang lowering, lsx + runtime models, z3; identity zlib framing. Sizes outside the grid are outside the claim.',
+    'bounded symbolic execution of LLVM IR (lsx, z3) + native ASan/UBSan replay', 'DESIGN.md §3 C03')
+chk('C04', 'model_checking',
+    'Bounded symbolic execution over EVERY byte string of each length in the bound (all bytes symbolic - stronger than blobs from an encoder): whenever the real 2.x from_blob accepts it, '
+    'to_blob of the result reproduces the payload byte for byte (the one boolean byte may be normalised to 0/1).',
+    'Trusted: clang lowering, lsx + runtime models, z3; identity zlib framing. Payloads longer than the bound are outside; the setter half is covered by C06 when claimed.',
+    'bounded symbolic execution of LLVM IR (lsx, z3) + native replay', 'DESIGN.md §3 C04')
 chk('C19', 'other',
     'SMT validity over the whole stated domain (sample count in [0, 2^62], every double rate in [0, 2^31]): the real functions are executed symbolically '
     '(loop-free, 3 paths) and each obligation of harness/h_wave.cpp is shown unsatisfiable by z3 - natively in BV/FP where that finishes (floor lemma, exactness), '
